@@ -21,13 +21,14 @@ const (
 )
 
 type gor struct {
-	id      int
-	state   gstate
-	wake    chan struct{}
-	top     *frame
-	blockOn string
-	pos     token.Pos
-	fnName  string
+	id          int
+	state       gstate
+	wake        chan struct{}
+	top         *frame
+	blockOn     string
+	panicOrigin string
+	pos         token.Pos
+	fnName      string
 	// delivery slot for channel operations completed by the peer
 	recvVal value
 	recvOk  bool
@@ -100,8 +101,8 @@ func (s *scheduler) spawn(i *interpreter, fn value, args []value, pos token.Pos)
 				// unrecovered target panic: the process would die
 				msg := panicString(cp)
 				site := "panic@" + g.fnName
-				if fr := g.top; fr != nil {
-					site = "panic@" + fr.fn.String()
+				if g.panicOrigin != "" {
+					site = "panic@" + g.panicOrigin
 				}
 				s.i.event("panic", site, fmt.Sprintf("unrecovered panic on goroutine %d (%s): %s", g.id, g.fnName, msg))
 				s.endPath(&pathAbort{kind: abortEvent, msg: "unrecovered panic: " + msg})
